@@ -3,3 +3,4 @@ import MiniconfVerif.Props.C13
 #print axioms MiniconfVerif.C13.epoch_order
 #print axioms MiniconfVerif.C13.loss_restarts
 #print axioms MiniconfVerif.C13.transitions
+#print axioms MiniconfVerif.C13.transition_table_matches
